@@ -76,9 +76,9 @@ class FileCacheConfig:
         path: str = TEMPORARY_DIRECTORY,
     ):
         self.path = path
-        self.size_gb = size_gb
-        self.parallel = parallel
-        self.allow_for_missing_files = allow_for_missing_files
+        self._size_gb = size_gb
+        self._parallel = parallel
+        self._allow_for_missing_files = allow_for_missing_files
 
         if self.config_exists():
             self.load_config()
@@ -95,12 +95,12 @@ class FileCacheConfig:
     def load_config(self) -> None:
         with open(self.name, "rb") as fp:
             config = json.load(fp)
-            self.size_gb = config["size_gb"]
-            self.parallel = config["parallel"]
-            self.allow_for_missing_files = config["allow_for_missing_files"]
+            self._size_gb = config["size_gb"]
+            self._parallel = config["parallel"]
+            self._allow_for_missing_files = config["allow_for_missing_files"]
 
     def _update_config(self, key, value, write=True):
-        self[key] = value
+        setattr(self, "_" + key, value)
         if write:
             self._write_config()
 
@@ -109,9 +109,9 @@ class FileCacheConfig:
             fp.write(
                 json.dumps(
                     {
-                        "size_gb": self.size_gb,
-                        "parallel": self.parallel,
-                        "allow_for_missing_files": self.allow_for_missing_files,
+                        "size_gb": self._size_gb,
+                        "parallel": self._parallel,
+                        "allow_for_missing_files": self._allow_for_missing_files,
                     },
                     indent=4,
                 )
@@ -119,7 +119,7 @@ class FileCacheConfig:
 
     @property
     def max_size(self) -> Union[float, int]:
-        return self.size_gb
+        return self._size_gb
 
     @max_size.setter
     def max_size(self, size_gb: float):
@@ -127,7 +127,7 @@ class FileCacheConfig:
 
     @property
     def max_size_bytes(self) -> int:
-        return int(self.size_gb * GIGABYTE)
+        return int(self._size_gb * GIGABYTE)
 
     @max_size_bytes.setter
     def max_size_bytes(self, size_bytes: int):
@@ -135,7 +135,7 @@ class FileCacheConfig:
 
     @property
     def parallel(self) -> bool:
-        return self.parallel
+        return self._parallel
 
     @parallel.setter
     def parallel(self, parallel: bool):
@@ -143,7 +143,7 @@ class FileCacheConfig:
 
     @property
     def allow_for_missing_files(self) -> bool:
-        return self.allow_for_missing_files
+        return self._allow_for_missing_files
 
     @allow_for_missing_files.setter
     def allow_for_missing_files(self, allow_for_missing_files: bool):
